@@ -472,6 +472,20 @@ def oracle_c04(cases, seed, thorough):
             tw.attrs.insert(r4.randrange(len(tw.attrs) + 1), gen.Instr("allow_unknown", None, tag=("au", None)))
             items.append(tw)
             srcs.append((tw.meta["id"], gen.render(tw, gen.speller(r4, r4.choice(["grouped", "grouped", "random"])))))
+    # one impl per (kind, fallibility, counterpart): a second instruction for the same counterpart under another name whose
+    # kinds overlap (`map` + `from`, `into` + `owned_into`, ..) must not yield the same impl twice (it is a rejected input)
+    for it in list(items[:(800 if not thorough else 5000)]):
+        traits = [a for a in it.attrs if a.tag and a.tag[0] == "trait"]
+        if traits and r4.random() < 0.3:
+            t = r4.choice(traits)
+            ks, fall = gen.kinds_of(t.name)
+            over = [n_ for n_ in gen.ALL24 if n_ != t.name and gen.kinds_of(n_)[1] == fall and set(gen.kinds_of(n_)[0]) & set(ks)]
+            if over:
+                tw = copy.deepcopy(it)
+                tw.meta["id"] = it.meta["id"] + "+ov"
+                tw.attrs.insert(r4.randrange(len(tw.attrs) + 1), gen.Instr(r4.choice(over), t.args.split("|", 1)[0].strip(), tag=t.tag))
+                items.append(tw)
+                srcs.append((tw.meta["id"], gen.render(tw)))
     outs, an = L.analyze("s1", srcs)
     n = 0
     for it, (i, s) in zip(items, srcs):
@@ -492,7 +506,10 @@ def oracle_c04(cases, seed, thorough):
                 if a.startswith("Error ="):
                     err = norm_ty(a[len("Error ="):])
             got.append((im["trait"], argref, selfref, cp.replace("::<", "<"), err))
-        if sorted(got, key=str) != expected_impls(it):
+        if len(set(got)) != len(got):
+            dup = sorted({g for g in got if got.count(g) > 1}, key=str)
+            fails.append({"source": s, "what": "the same impl is generated more than once (one impl per kind, fallibility and counterpart)", "detail": {"twice": dup[:4]}})
+        elif sorted(got, key=str) != expected_impls(it):
             fails.append({"source": s, "what": "the set of generated impls differs from the documented set for these trait instructions",
                           "detail": {"expected": expected_impls(it), "got": sorted(got, key=str)}})
     return fails, n
@@ -989,6 +1006,7 @@ FAULTS = [
     ("tuple-named-no-name", "should specify corresponding field name of the Zq7"),
     ("untyped-nested-parent", "Field 'zq_t' should have type here"),
     ("update-into-existing", "Struct update syntax '..' is not applicable to 'into_existing' instructions"),
+    ("update-next-to-bare-parent", "is not applicable next to a parameterless #[parent] member"),
     ("ghost-child-no-parents", r"re:Missing (#\[child_parents\(\.\.\.\)\]|'zq_base: \[Type Path\]') instruction for (type )?Zq8"),
 ]
 
@@ -1007,7 +1025,14 @@ def inject_fault(it, kind, r):
             return None
         t = r.choice(traits)
         head = t.args.split("|", 1)[0].strip()
-        it2.attrs.insert(r.randrange(len(it2.attrs) + 1), gen.Instr(t.name, head, tag=t.tag))
+        # the same counterpart requested twice for one kind: by the same name, or by another name whose kinds overlap
+        # (`map` next to `from`, `into` next to `owned_into`, `try_map_owned` next to `owned_try_into`, ..)
+        nm = t.name
+        if r.random() < 0.5:
+            ks, fall = gen.kinds_of(t.name)
+            over = [n for n in gen.ALL24 if n != t.name and gen.kinds_of(n)[1] == fall and set(gen.kinds_of(n)[0]) & set(ks)]
+            nm = r.choice(over) if over else nm
+        it2.attrs.insert(r.randrange(len(it2.attrs) + 1), gen.Instr(nm, head, tag=t.tag))
     elif kind == "missing-err":
         c = "Zq1"
         it2.attrs.insert(r.randrange(len(it2.attrs) + 1), gen.Instr(r.choice(gen.TRY12), c, tag=("trait", c)))
@@ -1109,6 +1134,19 @@ def inject_fault(it, kind, r):
                           "[parent([parent([parent(zq_l)] zq_t)] zq_t: ZqT)] zq_t: ZqU",
                           "zq_a, [parent(zq_b, [parent(zq_l)] zq_t)] zq_m: ZqT, zq_c"])
         f.attrs.insert(r.randrange(len(f.attrs) + 1), gen.Instr("parent", c + "| " + shape))
+    elif kind == "update-next-to-bare-parent":
+        # `..expr` on an instruction that generates an Into conversion (one-sided names included) of a counterpart for which
+        # a member carries a parameterless #[parent] — also when that member has a #[parent(..)] list dedicated to the same
+        # counterpart next to the default bare one: the body is assembled on a default value either way
+        if it2.kind != "struct" or it2.shape not in ("named", "tuple"):
+            return None
+        c = "Zq10"
+        nm = r.choice(["owned_into", "ref_into", "into", "map", "map_owned", "map_ref", "owned_try_into", "ref_try_into", "try_into", "try_map"])
+        it2.attrs.insert(r.randrange(len(it2.attrs) + 1), gen.Instr(nm, c + (", String" if "try" in nm else "") + " | " + r.choice(["", "attribute(inline), "]) + "..zq_base()", tag=("trait", c)))
+        pa = [gen.Instr("parent", None, tag=("parent", None))]
+        if r.random() < 0.5:
+            pa.insert(r.randrange(2), gen.Instr("parent", c + "| " + ("zq_x, zq_y" if it2.shape == "named" else "0, 1"), tag=("parent", c)))
+        it2.fields.insert(r.randrange(len(it2.fields) + 1), gen.Field("zq_p" if it2.shape == "named" else None, "ZqBase", pa))
     elif kind == "update-into-existing":
         c = "Zq9"
         nm = r.choice(["into_existing", "owned_into_existing", "ref_into_existing", "try_into_existing", "owned_try_into_existing"])
@@ -1140,6 +1178,34 @@ def inject_fault(it, kind, r):
     return it2
 
 
+def oracle_update_parent(seed, thorough, syntax):
+    """`..expr` has a meaning only where one struct expression is built. Inputs that put it on an Into instruction of a
+    counterpart that is assembled on a default value (a parameterless #[parent] member) must not be accepted; if one is,
+    the `..expr` tokens stand between statements (C08: they supply no field) and — `syntax` — rustc is asked to parse the body"""
+    fails = []
+    r = random.Random(seed + 88)
+    items = []
+    for k, prof in enumerate(["struct-flat", "trait-params"]):
+        items += [it for it in gen.gen_items(prof, seed * 1000 + 530 + k, 150 if not thorough else 1500)]
+    srcs = []
+    for it in items:
+        it2 = inject_fault(it, "update-next-to-bare-parent", r)
+        if it2 is not None:
+            srcs.append((it.meta["id"] + "~up", gen.render(it2, gen.speller(r) if r.random() < 0.3 else None)))
+    outs = expand("s1", srcs)
+    ok = [(i, s) for i, s in srcs if outs[i][0] == "OK"]
+    bad = rustc_parse_errors([L.pretty_tokens(outs[i][1]) for i, _ in ok], f"up{seed}") if (syntax and ok) else {}
+    for k, (i, s) in enumerate(ok):
+        toks = outs[i][1].split()
+        stray = any(toks[j] == "j." and toks[j + 1] == "p." and j > 0 and toks[j - 1] == "p;" for j in range(len(toks) - 1))
+        if syntax:
+            if k in bad:
+                fails.append({"source": s, "what": "accepted input expands to tokens rustc cannot parse: " + bad[k][:120], "shrinkable": False})
+        elif stray:
+            fails.append({"source": s, "what": "`..expr` is accepted on a conversion whose body is assembled on a default value: the tokens stand between statements and supply no field", "shrinkable": False})
+    return fails, len(srcs)
+
+
 def oracle_c15(cases, seed, thorough):
     """fault injection: a documented misuse injected at a random position into an input that the derive parses must be
     rejected with the rule's message; two injected faults must both be reported"""
@@ -1159,7 +1225,7 @@ def oracle_c15(cases, seed, thorough):
         removers = ("no-trait-instr", "dup-default-where", "dup-default-ghosts", "ghost-no-default", "child-no-parents")
         ks.sort(key=lambda k: 0 if k[0] in removers else 1)
         names2 = [k[0] for k in ks]
-        if len(ks) == 2 and "no-trait-instr" in names2 and any(x in ("dup-instr", "missing-err", "extra-err", "ghost-no-default", "child-no-parents", "repeat-param-conflict", "tuple-named-no-name", "untyped-nested-parent", "update-into-existing", "ghost-child-no-parents") for x in names2):
+        if len(ks) == 2 and "no-trait-instr" in names2 and any(x in ("dup-instr", "missing-err", "extra-err", "ghost-no-default", "child-no-parents", "repeat-param-conflict", "tuple-named-no-name", "untyped-nested-parent", "update-into-existing", "ghost-child-no-parents", "update-next-to-bare-parent") for x in names2):
             ks = [k for k in ks if k[0] == "no-trait-instr"]
         if len(ks) == 2 and {ks[0][0], ks[1][0]} == {"dup-default-where", "unknown-cpart-where"}:
             ks = ks[:1]
@@ -1331,6 +1397,22 @@ def oracle_c14_members(cases, seed, thorough):
     REP = ("repeat", "skip_repeat", "stop_repeat")
     for it in items:
         if it.kind == "enum":
+            if any(a.name in REP for v in it.variants for a in v.attrs) and any(a.name in REP for v in it.variants for f in v.fields for a in f.attrs):
+                # both levels at once: each keeps its own state — the payload members are written out by their own marks, the
+                # variants by theirs
+                if any(a.name == "as_type" for v in it.variants for f in v.fields for a in f.attrs):
+                    continue
+                w1 = write_out_enum_fields(it.variants)
+                w2 = write_out_members(it.variants)
+                if w1 is None or w2 is None:
+                    continue
+                it2 = copy.deepcopy(it)
+                for v, vo, va in zip(it2.variants, w1, w2):
+                    v.attrs = va
+                    for f, attrs in zip(v.fields, vo):
+                        f.attrs = attrs
+                pairs.append((it.meta["id"], gen.render(it), gen.render(it2)))
+                continue
             # variant-level repeat: the variants are the members; payload members must not take part
             if not any(a.name in REP for v in it.variants for a in v.attrs):
                 # no variant-level repeat: the payload members' own repeat instructions (plain and permeating)
@@ -1456,6 +1538,10 @@ def run_oracle(prop, cases, results, seed, thorough, disagreements):
                 fo, no = oracle_c14_traits(seed + 8, thorough)
                 out["failures"] += fo
                 out["evaluated"] += no
+                out["name"] += " + `..expr` where no struct expression is built (Into conversion next to a parameterless #[parent]) is never accepted"
+                fo, no = oracle_update_parent(seed + 8, thorough, syntax=False)
+                out["failures"] += fo
+                out["evaluated"] += no
             if prop == "C09":
                 out["name"] += " + metamorphic: swapping a default with a dedicated #[literal] / #[pattern] leaves the real expansion unchanged"
                 fo, no = oracle_c05_order(seed + 9, thorough, profiles=("enum-prim",))
@@ -1518,6 +1604,9 @@ def run_oracle(prop, cases, results, seed, thorough, disagreements):
             f17s, n17s = oracle_c17_syntax(cases, seed, thorough)
             out["failures"] += f17s
             out["syntax_checked_by_rustc"] = n17s
+            fu, nu = oracle_update_parent(seed + 17, thorough, syntax=True)
+            out["failures"] += fu
+            n17s += nu
             out["evaluated"] = n17 + n17s + out["runtime_tie"]["conversions_compared"]
         elif prop == "C04":
             out["name"] = "impl headers of the real output (parsed with syn 2) vs the documented impl set of the instructions"
@@ -1544,8 +1633,12 @@ def run_oracle(prop, cases, results, seed, thorough, disagreements):
             # order): swapping a default with a dedicated neighbour must leave all six flavours unchanged
             fo, no = oracle_c05_order(seed + 7, thorough, profiles=("member-instrs", "multi-counterpart", "struct-flat"))
             out["failures"] += fo
-            out["evaluated"] = n7 + no + out["runtime_tie"]["conversions_compared"]
-            out["name"] += " + metamorphic: default / dedicated neighbour swap"
+            # the fallible flavour of into_existing follows the instruction the infallible one follows: an Into-only
+            # instruction (fallible or not) next to the member's own into_existing instruction changes neither
+            fs, ns = oracle_c05_shadowed(seed + 7, thorough)
+            out["failures"] += fs
+            out["evaluated"] = n7 + no + ns + out["runtime_tie"]["conversions_compared"]
+            out["name"] += " + metamorphic: default / dedicated neighbour swap; step order of the lookup (try_into_existing follows the member's into_existing instruction, not its try_into one)"
         else:
             out["name"] = "none beyond the correspondence (a broken tie is reported without a failing input)"
     except Exception as e:  # an oracle that cannot run must not hide a result
